@@ -145,9 +145,12 @@ def gen_side(rng, T, server, hostkeys):
     return s
 
 
-def build_real(paramiko, s, hostkeys):
-    t = lib_kdf.bare_transport(paramiko, server_mode=s.server,
-                               disabled_algorithms={c: list(v) for c, v in s.dis.items()}, strict_kex=s.strict)
+def build_real(paramiko, s, hostkeys, sock=None, pack=None):
+    kw = dict(disabled_algorithms={c: list(v) for c, v in s.dis.items()}, strict_kex=s.strict)
+    if sock is None:
+        t = lib_kdf.bare_transport(paramiko, server_mode=s.server, **kw)
+    else:  # a real transport over a (loop) socket; start_server()/start_client() set the role
+        t = paramiko.Transport(sock, **kw)
     opts = t.get_security_options()
     if s.pref["kex"] is not None:
         opts.kex = tuple(s.pref["kex"])
@@ -168,8 +171,86 @@ def build_real(paramiko, s, hostkeys):
             t.server_key_dict[n] = hostkeys["ed25519"]
         assert list(t.server_key_dict.keys()) == s.server_keys
     # instance attribute: the class-level pack (shared by every transport in the process) stays untouched
-    t._modulus_pack = object() if s.moduli else None
+    t._modulus_pack = (pack if pack is not None else object()) if s.moduli else None
     return t
+
+
+def end_to_end(ctx, paramiko, c, s, hostkeys, pack, kex_names):
+    """A real handshake between two configured transports over tests._loop.LoopSocket; what each side's
+    _parse_kex_init agreed on (captured when it returns) vs first-common of the KEXINITs that were on the wire."""
+    import threading
+    from tests._loop import LoopSocket
+    from pv.core import InfraError
+
+    socks, sockc = LoopSocket(), LoopSocket()
+    sockc.link(socks)
+    tc = build_real(paramiko, c, hostkeys, sock=sockc, pack=pack)
+    ts = build_real(paramiko, s, hostkeys, sock=socks, pack=pack)
+    rec = {}
+
+    def wrap(t, role):
+        orig = t._parse_kex_init
+
+        def w(m):
+            remote = b"\x14" + m.asbytes()  # the peer's KEXINIT exactly as it arrived
+            try:
+                orig(m)
+            except Exception as e:
+                rec[role] = ("err", type(e).__name__, t.local_kex_init, remote)
+                raise
+            rec[role] = ("ok", [kex_names.get(type(t.kex_engine), "?"), t.host_key_type, t.local_cipher,
+                                t.remote_cipher, t.local_mac, t.remote_mac, t.local_compression,
+                                t.remote_compression], t.local_kex_init, remote)
+
+        t._parse_kex_init = w
+
+    wrap(tc, "c")
+    wrap(ts, "s")
+    evc, evs = threading.Event(), threading.Event()
+    case = {"client": c.describe(), "server": s.describe(), "end_to_end": True}
+    try:
+        ts.start_server(event=evs, server=paramiko.ServerInterface())
+        tc.start_client(event=evc)
+        if not (evc.wait(90) and evs.wait(90)):
+            raise InfraError("end-to-end handshake did not finish within 90 s: %r" % (case,))
+        active = (tc.is_active(), ts.is_active())
+        excs = (tc.get_exception(), ts.get_exception())
+    finally:
+        tc.close()
+        ts.close()
+    # a side that refuses closes the connection, possibly before the other one has parsed anything: either
+    # side's record holds both KEXINITs (its own and the peer's as received)
+    own = {}
+    if "c" in rec and rec["c"][2]:
+        own["c"], own["s"] = own_parse_kexinit(rec["c"][2]), own_parse_kexinit(rec["c"][3])
+    if "s" in rec and rec["s"][2]:
+        own["s"], own["c"] = own_parse_kexinit(rec["s"][2]), own_parse_kexinit(rec["s"][3])
+    if "c" not in own or "s" not in own:
+        ctx.fail("end-to-end:no-kexinit-exchanged", case, "records %r exceptions %r" % (rec, excs))
+        return
+    spec = spec_tuple(own["c"], own["s"])
+    case.update(client_kexinit=own["c"], server_kexinit=own["s"])
+    ctx.case(("e2e", repr(own["c"]), repr(own["s"])), True)
+    compatible = all(x is not None for x in spec)
+    ctx.dist("end-to-end:" + ("agreed" if compatible else "incompatible"))
+    if compatible:
+        for role, srv, side in (("c", False, c), ("s", True, s)):
+            r = rec.get(role)
+            if r is None:
+                continue  # the peer gave up first (reported for the peer)
+            if r[0] != "ok":
+                ctx.fail(classify(case, srv, side, None, spec, "incompatible-but-common-exists"), case,
+                         "%s raised %s during a real handshake; first-common = %r" % (role, r[1], spec))
+            elif canon_view(srv, r[1]) != spec:
+                i = next(k for k in range(8) if canon_view(srv, r[1])[k] != spec[k])
+                ctx.fail(classify(case, srv, side, i, spec, "not-first-common"), case,
+                         "%s agreed %r in a real handshake, first-common = %r" % (role, canon_view(srv, r[1]), spec))
+        if all(r in rec and rec[r][0] == "ok" for r in "cs") and not all(active):
+            ctx.fail("end-to-end:handshake-failed-after-agreement", case, "active=%r exceptions=%r" % (active, excs))
+    else:
+        if any(v[0] == "ok" for v in rec.values()) or all(active):
+            ctx.fail("no-common-algorithm-but-agreed:end-to-end", case, "records %r active %r" % (
+                {r: v[:2] for r, v in rec.items()}, active))
 
 
 def own_parse_kexinit(data):
@@ -582,6 +663,36 @@ def run(ctx):
         if pc[0] == "ok" and ps[0] == "ok" and canon_view(False, pc[2]) != canon_view(True, ps[2]):
             ctx.fail(classify(case, True, s, 0 if pc[2][0] != ps[2][0] else None, spec, "peers-disagree"), case,
                      "client %r server %r" % (pc[2], ps[2]))
+
+
+    # ------------------------------------------------------------------ (e) real handshakes with random configurations
+    import logging
+    from paramiko.primes import ModulusPack
+    from paramiko.kex_group14 import KexGroup14
+    lg = logging.getLogger("paramiko")  # refused handshakes are expected here: keep their tracebacks off stderr
+    lg.addHandler(logging.NullHandler())
+    lg.propagate = False
+    pack = ModulusPack()
+    pack.pack = {2048: [(KexGroup14.G, KexGroup14.P)]}
+    n_e2e = 60 if ctx.thorough else 7
+    for i in range(n_e2e):
+        c, s = gen_side(rng, T, False, hostkeys), gen_side(rng, T, True, hostkeys)
+        if i == 0:  # moduli-less server, client prefers group exchange
+            c, s = Side(False), Side(True)
+            s._real_keys = ["ed25519"]
+            gex = ["diffie-hellman-group-exchange-sha256"]
+            c.pref["kex"] = gex + [n for n in T._preferred_kex if n not in gex]
+        for side in (c, s):  # only what can really run here: no GSS kex, no host key names without a key
+            side.monkey_kex = None
+            if side.pref["kex"] is not None:
+                side.pref["kex"] = [n for n in side.pref["kex"] if not n.startswith("gss-")]
+        s._extra_keys = []
+        s.server_keys = []
+        for k in s._real_keys:
+            for n in [hostkeys[k].get_name()] + (["rsa-sha2-256", "rsa-sha2-512"] if k == "rsa" else []):
+                if n not in s.server_keys:
+                    s.server_keys.append(n)
+        end_to_end(ctx, paramiko, c, s, hostkeys, pack, kex_names)
 
 
 META = {
